@@ -177,3 +177,6 @@ func (s *Server) ZZChainAcyclic() bool {
 	}
 	return false
 }
+
+// ZZWriteLockUnlock takes and releases the server's write lock.
+func (s *Server) ZZWriteLockUnlock() { s.Lock(); s.Unlock() }
